@@ -508,8 +508,19 @@ def lazy_ifexp(run, model, rule="C07.lazy"):
             return None
         feas = [p for p in ps if tables.feasible(p, ev)]
         visited = set()
+
+        def chosen(t, ev=ev):
+            """a node picked by a conditional expression (``node.body if test else node.orelse``) under this case"""
+            t = strip_sites(t)
+            while t[0] == "op" and t[1] == "ifexp":
+                v = tables.evaluate(t[2][0], ev)
+                if v is None:
+                    return t
+                t = t[2][1] if v else t[2][2]
+            return t
+
         for p in feas:
-            vs = tuple(sorted(show(_visit_of(ct)) for ct, n in p.calls if _visit_of(ct) is not None))
+            vs = tuple(sorted(show(chosen(_visit_of(ct))) for ct, n in p.calls if _visit_of(ct) is not None))
             visited.add(vs)
         want = tuple(sorted(["node.test", "node.body" if truthy else "node.orelse"]))
         run.check(visited == {want}, rule, "%s[test %s]" % (fi.qual, "truthy" if truthy else "falsy"), "visits %s only" % (want,), "visits %s (expected %s): the arm Python did not take is evaluated" % (sorted(visited), want), fi.loc(), None, "test=%s" % truthy)
